@@ -30,6 +30,10 @@ FLOOR = 150
 
 
 def check(ctx):
+    # positional parameters keep their documented positions (a reordering survives every keyword call)
+    from ..sigrules import signatures as _signatures
+
+    _signatures(ctx, "R-SIG", classes=('skmatter.decomposition.PCovR',))
     N = ctx.normalizer()
     pc.gram_cov(ctx, N, "NF-MIX")
     pc.projectors(ctx, N, "NF-ROUTE")
